@@ -102,6 +102,13 @@ func runC03(c *Ctx) {
 					fs = append(fs, g.fieldDefFor(tf))
 					have[253] = true
 				}
+				for fi := range pm.Fields {
+					// any other time a container might sort or filter by (course_point.timestamp is field 1)
+					if f := &pm.Fields[fi]; f.K == 1 && !have[f.N] && rng.Intn(4) != 0 {
+						fs = append(fs, g.fieldDefFor(f))
+						have[f.N] = true
+					}
+				}
 				if mf := p.field(it.m, 254); mf != nil && rng.Intn(2) == 0 {
 					fs = append(fs, g.fieldDefFor(mf))
 					have[254] = true
